@@ -159,6 +159,8 @@ def case(arg):
             la, lb = l.loss(), c.loss()
             if not (X.feq(la, lb, 0.0 if exact else 1e-9)):
                 res["fail"] = ("loss_differs", f"[{kn}] {chan}: loss {la!r} vs restored {lb!r}")
+                if b == "integ" and X.feq(la, lb, 1e-12):
+                    res["integ_ulp"] = True  # the integrator sums over a set of interval objects hashed by identity
                 return res
             # next suggestions
             if b == "avg1d":
@@ -253,6 +255,8 @@ def run(ctx):
             sig = f"C13.{cl}.{r['kind']}"
             if r.get("unevaluated_bound"):
                 sig = "C13.suggestions_differ:l1d_restore_with_unevaluated_bound"
+            if cl == "loss_differs" and r.get("integ_ulp"):
+                sig = "C13.loss_differs:integ_sum_order_ulp"
             if r["kind"].split(":")[-1] == "l2d" and cl == "suggestions_differ" and r.get("l2d_stack_only"):
                 sig = "C13.suggestions_differ:l2d_stack_cache"
             failures.append({"clause": cl, "signature": sig, "detail": det,
